@@ -188,6 +188,26 @@ Section Index.
       destruct (zget_ok _ l k) as [x [Hx Hin]]; [unfold inrange, zlen in *; lia|]. rewrite Hx. split; [apply Hl|]; exact Hin.
   Qed.
 
+  Lemma pick1_ok : forall n l s, all_in n l -> l <> [] ->
+    exists x s', pick S next l 1 s = Ok (x, s') /\ inrange n x /\ In x l.
+  Proof.
+    intros n l s Hl Hne. unfold pick.
+    assert (Hlen : 0 <= zlen l - 1) by (destruct l; [contradiction | unfold zlen; cbn [length]; lia]).
+    destruct (randint_range 0 (zlen l - 1) s Hlen) as [k [s' [E Hk]]]. rewrite E.
+    destruct (zget_ok _ l k) as [x [Hx Hin]]; [unfold inrange, zlen in *; lia|]. rewrite Hx.
+    exists x, s'. split; [reflexivity|]. split; [apply Hl|]; exact Hin.
+  Qed.
+
+  Lemma pick2_ok : forall n l s, all_in n l -> l <> [] ->
+    exists x s', pick2 S next l s = Ok (x, s') /\ inrange n x /\ In x l.
+  Proof.
+    intros n l s Hl Hne. unfold pick2.
+    assert (Hlen : 1 <= zlen l) by (destruct l; [contradiction | unfold zlen; cbn [length]; lia]).
+    destruct (randint_range 0 (Z.max (zlen l - 2) 0) s ltac:(lia)) as [k [s' [E Hk]]]. rewrite E.
+    destruct (zget_ok _ l k) as [x [Hx Hin]]; [unfold inrange, zlen in *; lia|]. rewrite Hx.
+    exists x, s'. split; [reflexivity|]. split; [apply Hl|]; exact Hin.
+  Qed.
+
   Lemma attempt_range : forall n lrs nbrs st idx stuck s,
     (0 < n)%nat -> length lrs = n -> nbrs_ok_range n nbrs -> st_ok n st -> idx_ok n idx ->
     match attempt_bottleneck_fix S next lrs nbrs st idx stuck s with
@@ -216,8 +236,7 @@ Section Index.
       - pose proof (pick_range n tl 1 s0 B1 ltac:(lia)) as P. destruct (pick S next tl 1 s0) as [[x sx]|c]; [apply P | exact P]. }
     destruct (if (r0 <? 30) && negb (zlen nn =? 0) then pick S next nn 1 s0 else pick S next tl 1 s0) as [[ix1 s1]|c];
       [|left; exact P1].
-    pose proof (pick_range n tl 2 s1 B1 ltac:(lia)) as P2.
-    destruct (pick S next tl 2 s1) as [[ix2a s2]|c]; [|left; exact P2]. destruct P2 as [P2 _].
+    destruct (pick2_ok n tl s1 B1 Htlne) as [ix2a [s2 [E2 [P2 _]]]]. rewrite E2.
     assert (Hix2 : inrange n (if ix1 =? ix2a then last tl 0 else ix2a)).
     { destruct (ix1 =? ix2a); [|exact P2]. apply B1.
       destruct tl as [|t r]; [contradiction|]. clear. revert t. induction r as [|y r IH]; intros t; [left; reflexivity|].
